@@ -2,6 +2,8 @@ package wasp
 
 import (
 	"context"
+	"fmt"
+	"io"
 	"sync"
 	"time"
 
@@ -140,7 +142,7 @@ func (s *setupWorker) setup(ctx context.Context, m transport.Metadata) error {
 	c.SetReadDeadline(
 		time.Now().Add(connectTimeout),
 	)
-	firstPkt, err := s.decoder.Decode(c)
+	firstPkt, err := decode(s.decoder, c)
 	if err != nil {
 		return err
 	}
@@ -252,6 +254,17 @@ func (s *manager) shutdownSession(ctx context.Context, session *sessions.Session
 	}
 }
 
+// decode turns a panic of the packet decoder on malformed input into a decode error, so that
+// only the offending connection is terminated instead of the whole broker.
+func decode(d *decoder.Sync, r io.Reader) (pkt packet.Packet, err error) {
+	defer func() {
+		if rec := recover(); rec != nil {
+			pkt, err = nil, fmt.Errorf("malformed packet: %v", rec)
+		}
+	}()
+	return d.Decode(r)
+}
+
 type timeoutError interface {
 	Timeout() bool
 }
@@ -259,7 +272,7 @@ type timeoutError interface {
 func (s *connectionWorker) processSession(ctx context.Context, session *sessions.Session) bool {
 	c := session.ReadWriter()
 	started := time.Now()
-	pkt, err := s.decoder.Decode(c)
+	pkt, err := decode(s.decoder, c)
 	if err != nil {
 		vhook("conn.read.err", session.ID(), err)
 		return false
